@@ -7,4 +7,6 @@ export GOFLAGS=-mod=mod GOPROXY=off GOSUMDB=off GOTOOLCHAIN=local
 mkdir -p ../.build
 go test -c -tags verif -vet=off -o ../.build/setup.test ./props
 rm -f ../.build/setup.test
+# the simulated API server is pinned down by its own unit checks (DESIGN.md section 2.3)
+go test -tags verif -vet=off -count=1 ./sim
 echo "setup ok"
